@@ -54,6 +54,7 @@ CONSTANTS
   Weak_NoWitnessNeeded,           \* detectDivergence returns nil when no witness matched
   Weak_BackwardsUnbound,          \* backwards() never compares the verified chain's end with the target header
   Weak_ReplacementHashUnchecked,  \* after replacing the primary its block is not compared with the target header
+  Weak_PartialTraceOnBenignError, \* verifySkipping returns the partial trace (not nil) when the next pivot cannot be fetched
   Weak_PromotedWitnessStays       \* findNewPrimary leaves the promoted provider in the witness list when
                                   \* removing it would empty the list (shipped behaviour; scenario flag cfg.rollback)
 
@@ -277,7 +278,11 @@ VSLoop(sc, x, src, verified, cache, depth, trace, now) ==
             LET pivot == B(sc, verified).h + ((B(sc, cur).h - B(sc, verified).h) * 9) \div 16
                 a     == Ask(sc, x, src, pivot) IN
             IF IsBlk(sc, a.r) THEN VSLoop(sc, a.x, src, verified, cache \o <<a.r, a.r>>, depth + 1, trace, now)
-            ELSE IF a.r \in Benign THEN [x |-> a.x, err |-> "cantTrust", tr |-> << >>, to |-> 0]
+            \* `return nil, err`: the bare ErrNewValSetCantBeTrusted AND a nil trace.  The nil trace
+            \* is load-bearing: verifySkippingAgainstPrimary mistakes this error for success (below)
+            \* and only detectDivergence's "nil or single block primary trace" check stops it.
+            ELSE IF a.r \in Benign THEN [x |-> a.x, err |-> "cantTrust",
+                                         tr |-> IF Weak_PartialTraceOnBenignError THEN trace ELSE << >>, to |-> 0]
             ELSE [x |-> a.x, err |-> "VF:" \o a.r, tr |-> << >>, to |-> pivot]
        ELSE VSLoop(sc, x, src, verified, cache, depth + 1, trace, now)
   ELSE [x |-> x, err |-> "VF:" \o v, tr |-> << >>, to |-> B(sc, cur).h]
@@ -432,8 +437,11 @@ VerifySkippingAgainstPrimary(sc, x, trusted, new, now, sched) ==
             ELSE IF ~Weak_ReplacementHashUnchecked /\ B(sc, f.b).hid # B(sc, new).hid THEN [x |-> f.x, res |-> v.err]
             ELSE VerifySkippingAgainstPrimary(sc, f.x, trusted, f.b, now, sched)
   ELSE IF v.err = Nil THEN Detect(sc, v.x, v.tr, now, sched)
-  \* errors.Unwrap(ErrNewValSetCantBeTrusted) = nil -> `case nil` -> detectDivergence(nil trace)
-  ELSE IF v.err = "cantTrust" THEN [x |-> v.x, res |-> "NilTrace"]
+  \* errors.Unwrap(ErrNewValSetCantBeTrusted) = nil -> `case nil` (the success branch!) ->
+  \* detectDivergence(trace) with the trace verifySkipping returned: nil -> "NilTrace" error.
+  \* Were the trace the partial one, the LAST VERIFIED PIVOT would be cross-checked, match, and
+  \* verifyLightBlock would store the target although it was never verified.
+  ELSE IF v.err = "cantTrust" THEN Detect(sc, v.x, v.tr, now, sched)
   ELSE [x |-> v.x, res |-> v.err]
 
 \* verifySequential  [x, res]
